@@ -23,6 +23,9 @@ func checkRoundTrip(rec *stats.Recorder, c valCase) (msg string, known string) {
 		panic("reflection bridge self-test failed (harness bug, not a verdict): " + d + " for " + c.Type + " " + v.Canon())
 	}
 	classes := labelsOf(t, v, c.Format)
+	if c.AfterFailure > 0 {
+		classes = append(classes, "after_failed_marshal")
+	}
 	rec.Case(classes...)
 	if nonTrivial(classes) {
 		rec.NonTrivial(c.Format, c.Type+"|"+c.Format+"|"+v.Canon(), func() any { return c })
@@ -38,6 +41,7 @@ func checkRoundTrip(rec *stats.Recorder, c valCase) (msg string, known string) {
 		}
 	}
 
+	failedMarshal(c.AfterFailure)
 	var doc string
 	var err error
 	if p, pv, st := hx.Try(func() { doc, err = encode(t, rv, c.Format, nil) }); p {
@@ -117,7 +121,11 @@ func genValCase(rt *rapid.T, g *aval.Gen, allFormats bool) valCase {
 	if format == "query-fields" {
 		t = drawType(rt, records)
 	}
-	return valCase{CorpusSeed: corpusSeed, Type: t.String(), Format: format, Value: g.Value(rt, t, 0)}
+	c := valCase{CorpusSeed: corpusSeed, Type: t.String(), Format: format, Value: g.Value(rt, t, 0)}
+	if rapid.IntRange(0, 3).Draw(rt, "after_failure") == 0 {
+		c.AfterFailure = rapid.IntRange(1, 3).Draw(rt, "failed_entries")
+	}
+	return c
 }
 
 func TestC01RoundTrip(t *testing.T) {
